@@ -192,8 +192,12 @@ fn class_cmd(args: &[String]) -> Value {
     for &leap in &leaps {
         for (pos, spec_pos) in [("future", "future"), ("fresh0", "fresh"), ("fresh", "fresh"), ("stale", "stale"), ("ancient", "stale")] {
             // the full leap range only with one interval; the small values with several
-            let intervals: &[f64] = if leap <= 8 { &[1.0, 4.0, 16.0, 1024.0] } else { &[16.0] };
+            let intervals: &[f64] = if leap <= 8 { &[0.0, 0.1, 1.0, 4.0, 16.0, 1024.0] } else { &[16.0] };
             for &interval in intervals {
+                // eight intervals below one second: every measurable age is "older than eight update intervals"
+                if interval < 0.5 && (pos == "fresh0" || pos == "fresh") {
+                    continue;
+                }
                 let t = tracking(leap, ref_time_for(pos, interval), cf(1, -20), cf(1, -20), cf(1, -20), interval, 0);
                 let (_, st) = verif_writer::bound_and_status(t);
                 // through the real updater from each of the three FSM states (after a first measurement)
@@ -214,13 +218,37 @@ fn class_cmd(args: &[String]) -> Value {
                         pubs.push(fields(&rec).4);
                     }
                 }
-                writeln!(f, "{}", json!({"id": id, "leap": leap, "refPos": spec_pos, "pos": pos, "interval": interval, "got": st, "pub": pubs})).unwrap();
+                // from a fresh updater (no measurement yet): anything but a Synchronized class must publish Unknown (C09)
+                let mut pub0 = 9u8;
+                if leap <= 8 {
+                    let cap = Capture::default();
+                    let mut up = verif_writer::Updater::new(Box::new(cap.clone()), 1000);
+                    up.clock_update(tracking(leap, ref_time_for(pos, interval), cf(1, -20), cf(1, -20), cf(1, -20), interval, 0), 0, libc::timespec { tv_sec: 50, tv_nsec: 0 });
+                    pub0 = fields(cap.0.lock().unwrap().last().unwrap()).4;
+                }
+                writeln!(f, "{}", json!({"id": id, "leap": leap, "refPos": spec_pos, "pos": pos, "interval": interval, "got": st, "pub": pubs, "pub0": pub0})).unwrap();
                 id += 1;
             }
         }
     }
+    // sequences: the classification of a report depends on that report only. Same reference time and leap status
+    // twice, the update interval shrinking in between so that the second report is older than eight intervals.
+    let mut seq_bad = vec![];
+    for (age, i1, i2, want2) in [(10u64, 16.0f64, 1.0f64, 2u8), (10, 1.0, 16.0, 1), (100, 64.0, 4.0, 2)] {
+        let cap = Capture::default();
+        let mut up = verif_writer::Updater::new(Box::new(cap.clone()), 1000);
+        let rt = SystemTime::now() - Duration::from_secs(age);
+        let ts = libc::timespec { tv_sec: 50, tv_nsec: 0 };
+        up.clock_update(tracking(0, SystemTime::now(), cf(1, -20), cf(1, -20), cf(1, -20), 16.0, 0), 0, ts);
+        up.clock_update(tracking(1, rt, cf(1, -20), cf(1, -20), cf(1, -20), i1, 0), 0, ts);
+        up.clock_update(tracking(1, rt, cf(1, -20), cf(1, -20), cf(1, -20), i2, 0), 0, ts);
+        let got = fields(cap.0.lock().unwrap().last().unwrap()).4;
+        if got != want2 {
+            seq_bad.push(json!({"reference_time_age_s": age, "interval_first": i1, "interval_second": i2, "published_status_after_second": got, "expected": want2}));
+        }
+    }
     f.flush().unwrap();
-    json!({"rows": id, "leaps": leaps.len(), "all": all})
+    json!({"rows": id, "leaps": leaps.len(), "all": all, "seq_bad": seq_bad})
 }
 
 // ------------------------------------------------------------------------------------------ replay (C08 C09 C13)
@@ -455,6 +483,22 @@ fn replay_one(beh: &Value, tag: &str) -> (usize, usize, Vec<Value>, Option<Strin
                 if !measured_real && stc != 0 {
                     add(&mut viol, "C09", "trust-before-first-measurement", format!("record published before any synchronised report has status {stc} (bound {bound}, as_of {as_of}) after outcome {:?}", st["v"]));
                 }
+                if !measured_real {
+                    // ... and a client evaluating it shortly after boot (uptime 6 s .. 999 s) sees Unknown too
+                    let rec = *recs.last().unwrap();
+                    for up_s in [6i64, 999] {
+                        verif::set_clock(Some(Box::new(move |id| {
+                            if id == libc::CLOCK_REALTIME { libc::timespec { tv_sec: 1_700_000_000, tv_nsec: 0 } } else { libc::timespec { tv_sec: up_s, tv_nsec: 0 } }
+                        })));
+                        let r = rec.now();
+                        verif::set_clock(None);
+                        if let Ok((_, _, s)) = r {
+                            if s as u8 != 0 {
+                                add(&mut viol, "C09", "client-trusts-placeholder", format!("client at uptime {up_s} s reports status {} for the record published before any synchronised report", s as u8));
+                            }
+                        }
+                    }
+                }
                 if as_of != want_asof || bound != want_bound {
                     add(&mut viol, "C08", "bound-asof-not-tracking", format!("published (bound {bound}, as_of {as_of}) after outcome {:?}; the latest synchronised report gives (bound {want_bound}, as_of {want_asof})", st["v"]));
                 }
@@ -614,8 +658,8 @@ fn grace_scenario(name: &str, polls: Vec<Poll>, phc: bool) -> Value {
         } else {
             match since {
                 None => vec!["NoReply"],
-                Some(s) if s < 4.9 => vec!["NoReplyGrace"],
-                Some(s) if s > 5.1 => vec!["NoReply"],
+                Some(s) if s < 4.6 => vec!["NoReplyGrace"],
+                Some(s) if s > 5.4 => vec!["NoReply"],
                 _ => vec!["NoReplyGrace", "NoReply"],
             }
         };
@@ -634,10 +678,10 @@ fn grace_cmd(_args: &[String]) -> Value {
     let p = |at: f64, blocks: f64, answer: bool, phc_readable: bool| Poll { at, blocks, answer, phc_readable };
     let scenarios: Vec<(&str, Vec<Poll>, bool)> = vec![
         ("startup-silence", vec![p(0.05, 0.0, false, true), p(1.0, 0.0, false, true), p(4.0, 0.0, false, true)], false),
-        ("outage", vec![p(0.1, 0.0, true, true), p(1.1, 0.0, false, true), p(4.8, 0.0, false, true), p(5.5, 0.0, false, true), p(7.0, 0.0, false, true)], false),
-        ("outage-recover-outage", vec![p(0.1, 0.0, true, true), p(5.6, 0.0, false, true), p(6.0, 0.0, true, true), p(7.0, 0.0, false, true), p(11.3, 0.0, false, true)], false),
-        ("slow-failing-query", vec![p(0.1, 0.0, true, true), p(3.0, 1.0, false, true), p(5.6, 1.5, false, true)], false),
-        ("failed-polls-do-not-extend-grace", vec![p(0.1, 0.0, true, true), p(2.0, 0.0, false, true), p(4.0, 0.0, false, true), p(6.0, 0.0, false, true)], false),
+        ("outage", vec![p(0.1, 0.0, true, true), p(1.1, 0.0, false, true), p(4.3, 0.0, false, true), p(5.9, 0.0, false, true), p(7.0, 0.0, false, true)], false),
+        ("outage-recover-outage", vec![p(0.1, 0.0, true, true), p(5.9, 0.0, false, true), p(6.3, 0.0, true, true), p(7.3, 0.0, false, true), p(12.2, 0.0, false, true)], false),
+        ("slow-failing-query", vec![p(0.1, 0.0, true, true), p(3.0, 1.0, false, true), p(5.9, 1.8, false, true)], false),
+        ("failed-polls-do-not-extend-grace", vec![p(0.1, 0.0, true, true), p(2.0, 0.0, false, true), p(4.0, 0.0, false, true), p(6.2, 0.0, false, true)], false),
         ("phc-unreadable", vec![p(0.1, 0.0, true, true), p(1.0, 0.0, true, false), p(2.0, 0.0, true, true), p(3.0, 0.0, false, true)], true),
         ("startup-then-good", vec![p(0.1, 0.0, false, true), p(0.5, 0.0, true, true), p(1.5, 0.0, false, true)], false),
     ];
@@ -678,6 +722,30 @@ fn refid_cmd() -> Value {
             if phc != Some(want) {
                 viol.push(json!({"property": "C13", "signature": "refid-match", "what": format!("configured reference id {cfg:?}, chronyd reports {rep:?}: message carries PHC error bound {phc:?}, expected {want}")}));
             }
+        }
+    }
+    // the PHC is the reference but its error bound cannot be read (file absent, empty, blank, not a number): the
+    // report must not be used as a measurement (a PhcFail message, or the fail-stop panic of the pinned code)
+    let id = clock_bound_d::refid_to_u32("PHC0").unwrap_or(PHC_REFID);
+    for (what, content) in [("absent", None), ("empty", Some("")), ("blank", Some("  \n")), ("not-a-number", Some("N/A\n"))] {
+        let path = scratch_path(&format!("phcfile_{what}"));
+        let phc_file = path.with_extension("phc");
+        let _ = std::fs::remove_file(&phc_file);
+        if let Some(c) = content {
+            std::fs::write(&phc_file, c).unwrap();
+        }
+        let info = PhcInfo { refid: id, sysfs_error_bound_path: phc_file.clone() };
+        let t = tracking(0, SystemTime::now(), cf(0, -30), cf(0, -30), cf(1, -7), 16.0, PHC_REFID);
+        let r = poll_once(0, Script { reply: Some(t), now_at_query: 0, grace: true }, Some(info));
+        let _ = std::fs::remove_file(&phc_file);
+        cleanup(&path);
+        let outcome = match &r {
+            Ok(m) => kind_of(m).0.to_string(),
+            Err(e) => format!("fail-stop ({e})"),
+        };
+        rows.push(json!({"phc_file": what, "outcome": outcome}));
+        if outcome == "Data" {
+            viol.push(json!({"property": "C13", "signature": "phc-unreadable-used", "what": format!("PHC is the reference and its error bound file is {what}: the report was still delivered as a measurement")}));
         }
     }
     json!({"rows": rows, "violations": viol})
